@@ -138,9 +138,15 @@ fn run(req: &str) -> Outcome {
         },
         "c14.replattr" if toks.len() == 4 => match (parse_mode(toks[1]), unstr(toks[2]), unstr(toks[3])) {
             (Some(m @ 1..=2), Some(el), Some(a)) => match probe_replacement(open_real(m), &el, &a) {
-                // the parser itself may rename an attribute (foreign content); the cell is about
-                // what the sanitizer does to the attribute it was given
-                Some((_, Some((b, n)))) => Outcome::new(format!("to {}", stok(if n == b { &a } else { &n }))),
+                // The cell is about what the sanitizer does to the HTML attribute it was given.
+                // Where the parser itself puts the attribute into a namespace (foreign content:
+                // xlink:href, xml:lang, …) or changes its spelling (SVG: viewbox → viewBox) there
+                // is no such cell; `cells` does not generate it.
+                Some((_, Some(p))) if p.parsed_q == "0" && p.parsed == a => match p.after {
+                    Some(n) => Outcome::new(format!("to {}", stok(if n == p.parsed { &a } else { &n }))),
+                    None => Outcome::new("removed"),
+                },
+                Some((_, Some(_))) => bad(),
                 _ => Outcome::new("unparsed"),
             },
             _ => bad(),
@@ -203,7 +209,11 @@ fn cells(tier: &str) -> Vec<Req> {
                 let all = thorough || spec::ELEMENTS[..12].contains(e) || ["font", "strike", "span", "img", "code", "div"].contains(e);
                 if all {
                     for a in &au {
-                        v.push(Req::new(format!("c14.replattr {mt} {} {}", stok(e), stok(a)), "cell.replattr"));
+                        // only where the parser (alone) yields a plain HTML attribute
+                        let html_attr = matches!(probe_replacement(open, e, a), Some((_, Some(p))) if p.parsed_q == "0" && p.parsed == *a);
+                        if html_attr {
+                            v.push(Req::new(format!("c14.replattr {mt} {} {}", stok(e), stok(a)), "cell.replattr"));
+                        }
                     }
                 }
             }
